@@ -84,6 +84,29 @@ def population_oracle(pat, lines):
     if evs != want: return f"deletion events for {sorted(evs)}, removed {sorted(want)}"
     return None
 
+CROWD = [p for p in seqs(["a", "b", "?", "#"], 3) if wf(p)]
+
+def crowd_ops():
+    """all patterns subscribed AT ONCE (one subscriber tree holding literal, `?` and `#` branches side by side), then every key of
+    the universe set once"""
+    return [O.psub(2, i + 1, "/".join(p), False, True) for i, p in enumerate(CROWD)] + [O.set(1, "/".join(k), 7) for k in UNIVERSE]
+
+def crowd_oracle(lines):
+    """what a subscription is told does not depend on who else is subscribed: subscriber i gets an event for exactly the keys the
+    documented relation selects for its pattern"""
+    n = len(CROWD)
+    if len(lines) < n + len(UNIVERSE): return "implementation stopped answering"
+    got = {i: set() for i in range(n)}
+    for k, line in zip(UNIVERSE, lines[n:]):
+        for tok in line.split(" | ")[1].split(" "):
+            if ":PV:[" in tok:
+                got[int(tok.split(":")[0])].add(tuple(k))
+    for i, p in enumerate(CROWD):
+        want = {tuple(k) for k in UNIVERSE if doc_match(p, k)}
+        if got[i] != want:
+            return f"with {n} patterns subscribed at once, the subscriber of `{'/'.join(p)}` was told of {sorted('/'.join(k) for k in got[i])}; the documented relation selects {sorted('/'.join(k) for k in want)}"
+    return None
+
 def run(v, tier, seed):
     depth = 3 if tier == "quick" else 4
     kdepth = depth
@@ -99,7 +122,7 @@ def run(v, tier, seed):
     os.makedirs(work, exist_ok=True)
     pairs = [(p, k) for p in pats for k in keys] + extra
     pop_pats = list(seqs(["a", "b", "?", "#"], 3 if tier == "quick" else 4))
-    cases = [(f"{i}", case_ops(p, k)) for i, (p, k) in enumerate(pairs)] + [(f"pop{i}", population_ops(p)) for i, p in enumerate(pop_pats)]
+    cases = [(f"{i}", case_ops(p, k)) for i, (p, k) in enumerate(pairs)] + [(f"pop{i}", population_ops(p)) for i, p in enumerate(pop_pats)] + [("crowd", crowd_ops())]
     cpath = os.path.join(work, "cases.txt")
     write_cases(cpath, cases)
     impl, model = run_engine("core", "core_driver", cpath, work)
@@ -163,14 +186,18 @@ def run(v, tier, seed):
                          "observed_lines": [decode_tok(l) for l in A.get(f"pop{i}", [])[len(UNIVERSE):]]})
             if len(v.violations) >= 5: break
     stats["population_cases"] = npop
+    bad = crowd_oracle(A.get("crowd", [])) if not v.violations else None
+    if bad:
+        v.violation({"what": bad, "case": "crowd", "ops": crowd_ops(), "ops_readable": [decode_tok(o) for o in crowd_ops()]})
+    stats["crowd_subscriptions"] = len(CROWD)
     # correspondence: any disagreement not already explained by a property failure
     if diffs and not v.violations:
         name, step, x, y = diffs[0]
-        p, k = pairs[int(name)] if not name.startswith("pop") else (pop_pats[int(name[3:])], [])
+        p, k = pairs[int(name)] if name.isdigit() else ((pop_pats[int(name[3:])], []) if name.startswith("pop") else ([], []))
         v.violation({"what": "model and implementation disagree; the documented relation still holds on every pair explored",
                      "pattern": "/".join(p), "key": "/".join(k), "ops": case_ops(p, k) if k else population_ops(p), "step": step,
                      "impl": decode_tok(x), "model": decode_tok(y), "disagreeing_cases": len(diffs),
                      "broken_obligation": "correspondence core/C04 (Model/Store.v collect, delm; Model/Subs.v add_matches)"}, no_input=True)
     v.cov.update({"evaluations": ncases, "distinct_nontrivial": len(nontrivial),
-                  "rule": f"every pattern over {{a,b,'',?,#}} and every key over {{a,b,''}} up to depth {depth} (exhaustive){' plus 20000 random depth-5 pairs' if extra else ''}; per pair: set, psubscribe (live-only and not), pget, set, pdelete, get on the real core and on the model; plus, for every pattern over {{a,b,?,#}} up to that depth, a store with a value at EVERY node of the {{a,b}} tree of depth 3 (pget, pdelete, remaining keys, deletion events as sets); non-trivial = the documented relation holds for the pair, or the pair is in a known class",
+                  "rule": f"every pattern over {{a,b,'',?,#}} and every key over {{a,b,''}} up to depth {depth} (exhaustive){' plus 20000 random depth-5 pairs' if extra else ''}; per pair: set, psubscribe (live-only and not), pget, set, pdelete, get on the real core and on the model; plus, for every pattern over {{a,b,?,#}} up to that depth, a store with a value at EVERY node of the {{a,b}} tree of depth 3 (pget, pdelete, remaining keys, deletion events as sets); plus one case with all well-formed patterns to depth 3 subscribed at once and every key set once (what a subscriber is told does not depend on who else is subscribed); non-trivial = the documented relation holds for the pair, or the pair is in a known class",
                   "samples": samples, "exhaustive": True, "steps": nsteps, "disagreements": len(diffs), "classes": stats})
